@@ -294,7 +294,7 @@ Qed.
 (* ------------------------------------------------------------------ density *)
 (* the code's density is total mass / volume times its hard-coded factor *)
 Theorem density_form ms v : density ms v == qsum ms / v * density_conversion.
-Proof. unfold density, density_formula. reflexivity. Qed.
+Proof. unfold density, density_formula, Qdiv. ring. Qed.
 
 (* the hard-coded factor is 1 dalton/nm^3 in kg/m^3 (CODATA 2018: 1.66053906660) to 1e-6 *)
 Theorem density_conversion_value :
